@@ -18,6 +18,8 @@
 (*   ctx         - the fetch_active_workspace context the user is in (shared/utils.py:95-123):  *)
 (*                 "none" | "keep" (workspace yielded as it was) | "close" (re-opened by the    *)
 (*                 helper, closed again when the with-block is left)                            *)
+(*   rep         - "none", or the setter class whose assignment has just been refused on the    *)
+(*                 pristine read-only workspace: the identical assignment can be repeated       *)
 (*   last        - observation of the last action (never part of the VIEW): act, args, out and  *)
 (*                 wopen = "a writable handle on the source file was opened during the step"    *)
 (*                 (the harness sees every h5py.File that is opened, also the transient ones)   *)
@@ -34,13 +36,14 @@ EXTENDS Naturals, FiniteSets, TLC, TLCExt, Json
 
 CONSTANTS ReadOps, WriteOps, ProbeOps,   \* operation classes (sets of strings)
           Helpers,                       \* helpers that open the file for reading on the user's behalf
+          RepeatOps,                     \* operation classes whose refused call can be repeated verbatim (setters)
           MaxVersion,                    \* bound on the number of content changes in one behaviour (= MaxDepth: never binding)
           MaxDepth,
           Deviations                     \* named as-built deviations; {} = Ideal
 
-VARIABLES mode, fileVersion, live, ctx, last
-vw   == <<mode, fileVersion, live, ctx>>
-vars == <<mode, fileVersion, live, ctx, last>>
+VARIABLES mode, fileVersion, live, ctx, rep, last
+vw   == <<mode, fileVersion, live, ctx, rep>>
+vars == <<mode, fileVersion, live, ctx, rep, last>>
 
 Modes == {"closed", "r", "r+"}
 Outs  == {"ok", "refused"}
@@ -50,7 +53,7 @@ ObsW(act, args, out, w) == last' = [act |-> act, args |-> args, out |-> out, wop
 Obs(act, args, out) == ObsW(act, args, out, FALSE)
 
 Init ==
-    /\ mode = "closed" /\ fileVersion = 0 /\ live = "sync" /\ ctx = "none"
+    /\ mode = "closed" /\ fileVersion = 0 /\ live = "sync" /\ ctx = "none" /\ rep = "none"
     /\ last = [act |-> "Init", args |-> [x |-> 0], out |-> "ok", wopen |-> FALSE]
 
 \* ------------------------------------------------------------------ open / close
@@ -61,6 +64,7 @@ Open(m) ==
     /\ mode' = m /\ live' = "sync"
     /\ UNCHANGED <<fileVersion, ctx>>
     /\ ObsW("Open", [m |-> m], "ok", m = "r+")
+    /\ rep' = "none"
 
 \* Workspace.open(mode=m) on a workspace that is already open (workspace.py:1189-1191): warns and
 \* returns self - in particular open("r+") never upgrades a read-only handle.
@@ -68,6 +72,7 @@ ReOpen(m) ==
     /\ mode # "closed" /\ m \in {"r", "r+"}
     /\ UNCHANGED <<mode, fileVersion, live, ctx>>
     /\ Obs("ReOpen", [m |-> m], "ok")
+    /\ rep' = "none"
 
 \* Workspace.close / finalize / leaving the with-block (workspace.py:184-218).  Only a writable handle
 \* performs the final save of the root sub-tree (it may purge, i.e. write, after earlier writes);
@@ -89,6 +94,7 @@ Close(how) ==
     /\ Released(fileVersion')
     /\ UNCHANGED <<live, ctx>>
     /\ Obs("Close", [how |-> how], "ok")
+    /\ rep' = "none"
 
 \* Workspace.save_as(path) (workspace.py:1273-1303): closes, copies the file and re-targets the
 \* workspace object to the copy (re-opened in the mode the workspace was constructed with).  From the
@@ -99,6 +105,7 @@ SaveAs ==
     /\ Released(fileVersion')
     /\ UNCHANGED <<live, ctx>>
     /\ Obs("SaveAs", [x |-> 0], "ok")
+    /\ rep' = "none"
 
 \* ------------------------------------------------------------------ the reflective alphabet
 \* Non-mutating entry points (getters, incl. the lazily loading ones: values, metadata,
@@ -112,6 +119,7 @@ Read(op) ==
          /\ Obs("Read", [op |-> op], out)
     /\ fileVersion' = fileVersion
     /\ IF "LazyGetterUpgrades" \in Deviations /\ mode = "r" THEN mode' = "r+" ELSE mode' = mode
+    /\ rep' = "none"
     /\ UNCHANGED <<live, ctx>>
 
 \* Mutating entry points.  Workspace._io_call refuses every r+/a writer function when the handle mode is
@@ -124,10 +132,11 @@ Write(op) ==
                  /\ (Exact /\ "WriteIgnored" \notin Deviations => out = "refused")
                  /\ (Exact /\ "WriteIgnored" \in Deviations => out = "ok")
                  /\ Obs("Write", [op |-> op], out)
+                 /\ rep' = IF Exact /\ out = "refused" /\ op \in RepeatOps THEN op ELSE "none"
             /\ live' = "any"
             /\ IF "WriteThroughReadOnly" \in Deviations /\ fileVersion < MaxVersion
                THEN fileVersion' = fileVersion + 1 ELSE fileVersion' = fileVersion
-       ELSE /\ fileVersion < MaxVersion
+       ELSE /\ fileVersion < MaxVersion /\ rep' = "none"
             /\ IF Exact
                THEN /\ fileVersion' = fileVersion + 1 /\ live' = "sync"
                     /\ \E out \in Outs : Obs("Write", [op |-> op], out)   \* may raise after having written
@@ -142,8 +151,21 @@ Probe(op) ==
     /\ (mode = "r" \/ (mode = "r+" /\ Exact)) /\ op \in ProbeOps
     /\ \E out \in Outs : Obs("Probe", [op |-> op], out)
     /\ fileVersion' = fileVersion
-    /\ live' = "any"
+    /\ live' = "any" /\ rep' = "none"
     /\ UNCHANGED <<mode, ctx>>
+
+\* The assignment that has just been refused, issued again with the identical value.  The refused setter has already
+\* changed the attribute in memory (live = "any"), the file still holds the old value: the call still has to write and
+\* must be refused again, however often it is repeated.  As built, Entity.parent accepts the repetition silently
+\* (entity.py:273-287: the second call finds current_parent == parent and skips the file operations): named deviation
+\* RepeatAccepted.
+Repeat ==
+    /\ mode = "r" /\ rep # "none"
+    /\ \E out \in Outs :
+         /\ ("RepeatAccepted" \notin Deviations => out = "refused")
+         /\ ("RepeatAccepted" \in Deviations => out = "ok")
+         /\ Obs("Repeat", [op |-> rep], out)
+    /\ UNCHANGED <<mode, fileVersion, live, ctx, rep>>
 
 \* ------------------------------------------------------------------ helpers
 \* read_ui_json   InputFile.read_ui_json(path) + .data         (input_file.py:192-212,111-147)
@@ -159,6 +181,7 @@ Helper(h) ==
     /\ h \in Helpers /\ mode \in {"closed", "r"}
     /\ \E out \in Outs : ObsW("Helper", [h |-> h], out, "HelperOpensWritable" \in Deviations)
     /\ IF "HelperUpgrades" \in Deviations /\ mode = "r" THEN mode' = "r+" ELSE mode' = mode
+    /\ rep' = "none"
     /\ UNCHANGED <<fileVersion, live, ctx>>
 
 \* fetch_active_workspace(ws, mode=m) (shared/utils.py:95-123), entering the with-block:
@@ -175,6 +198,7 @@ FetchEnter(m) ==
             /\ IF mode = "closed" THEN fileVersion' = fileVersion
                ELSE Released(fileVersion')  \* the open handle (necessarily "r") is closed first: never writes
     /\ ObsW("FetchEnter", [m |-> m], "ok", ~Matches(m) /\ m = "r+")
+    /\ rep' = "none"
 \* leaving the with-block: a workspace the helper opened is closed, a workspace yielded as it was is left alone
 FetchExit ==
     /\ ctx # "none"
@@ -183,6 +207,7 @@ FetchExit ==
                       ELSE mode' = mode /\ fileVersion' = fileVersion
     /\ UNCHANGED live
     /\ Obs("FetchExit", [x |-> 0], "ok")
+    /\ rep' = "none"
 
 Next ==
     \/ \E m \in {"r", "r+"} : Open(m) \/ ReOpen(m) \/ FetchEnter(m)
@@ -193,6 +218,7 @@ Next ==
     \/ \E op \in ProbeOps : Probe(op)
     \/ \E h \in Helpers : Helper(h)
     \/ FetchExit
+    \/ Repeat
 
 Spec == Init /\ [][Next]_vars
 DepthBound == TLCGet("level") <= MaxDepth
@@ -200,7 +226,7 @@ DepthBound == TLCGet("level") <= MaxDepth
 \* ------------------------------------------------------------------ properties (C10)
 TypeOK ==
     /\ mode \in Modes /\ fileVersion \in 0..MaxVersion /\ live \in {"sync", "any"}
-    /\ ctx \in {"none", "keep", "close"}
+    /\ ctx \in {"none", "keep", "close"} /\ rep \in {"none"} \cup RepeatOps
     /\ last.out \in Outs /\ last.wopen \in BOOLEAN
 
 \* the explicit request for a writable handle
@@ -216,6 +242,9 @@ ClosedFrozen == [][mode = "closed" => fileVersion' = fileVersion]_vars
 \* every call that would have to write fails with an error
 WritesRefused ==
     [][(last'.act = "Write" /\ mode = "r" /\ Exact) => last'.out = "refused"]_vars
+\* ... however often it is asked
+RepeatRefused ==
+    [][last'.act = "Repeat" => last'.out = "refused" /\ fileVersion' = fileVersion /\ mode' = mode]_vars
 \* getters (incl. lazy ones) work on a read-only workspace
 ReadsWork == [][(last'.act = "Read" /\ mode = "r" /\ Exact) => last'.out = "ok"]_vars
 \* helpers leave the source file and the user's handle alone and never hold a writable handle themselves
@@ -233,6 +262,6 @@ ChangeNeedsWritable == [][fileVersion' # fileVersion => mode = "r+"]_vars
 
 \* ------------------------------------------------------------------ export
 ExportState == PrintT(<<"ST", TLCFP(vw), TLCFP(<<vw, 1>>),
-                        ToJson([mode |-> mode, fileVersion |-> fileVersion, live |-> live, ctx |-> ctx])>>)
+                        ToJson([mode |-> mode, fileVersion |-> fileVersion, live |-> live, ctx |-> ctx, rep |-> rep])>>)
 ExportTrans == PrintT(<<"TR", TLCFP(vw), TLCFP(<<vw, 1>>), TLCFP(vw'), TLCFP(<<vw', 1>>), ToJson(last')>>)
 =============================================================================
